@@ -410,7 +410,7 @@ def run(tier, seed):
     fam_course = [t for t in family if has_course(t)]
     shorthands = sorted(core_chords.chord_shorthand.keys())
     roots = ["C", "C#", "D", "Eb", "E", "F", "F#", "G", "Ab", "A", "Bb", "B"]
-    n_fing = [0]
+    n_fing = [0, 0]
 
     def check_chord(t, names, md, mf, mx, label):
         opens = opens_of(t)
@@ -425,8 +425,9 @@ def run(tier, seed):
         md_, mf_, mx_ = (4 if md is None else md), (18 if mf is None else mf), (4 if mx is None else mx)
         inp = (tname(t), label, names, kw)
         R.case(G, (tname(t), label, md, mf, mx))
+        n_fing[1] += 1
         try:
-            got = t.find_chord_fingering(list(names), **kw)
+            got = t.find_chord_fingering(list(names) if n_fing[1] % 3 else NoteContainer(list(names)), **kw)
         except TypeError as e:
             R.fail(G, CC["shape"], "find_chord_fingering(%r) on %s raised TypeError: %s" % (names, tname(t), e), inp,
                    finding="chord-fingering-course-tuning-type-error" if has_course(t) else None)
@@ -588,8 +589,7 @@ def run(tier, seed):
         txt = render(G, std, ("default tuning", p), lambda: tab.from_Note(Note().from_int(p)), not playable)
         if txt is not None:
             b = tabreader.read(txt)
-            if not (len(b) == 1 and len(b[0]) == 1 and check_block(G, b[0][0], std, p) and b[0][0].bar_pitches() == [[[p]]]
-                    and set(b[0][0].line_lengths()) == {80}):
+            if not (len(b) == 1 and len(b[0]) == 1 and check_block(G, b[0][0], std, p) and b[0][0].bar_pitches() == [[[p]]]):
                 R.fail(G, CR, "note %d at the default width / tuning reads back wrongly:\n%s" % (p, txt), ("default tuning", p))
     for ti, t in enumerate(plain):
         opens = opens_of(t)
@@ -1025,10 +1025,10 @@ def run(tier, seed):
             "strings -2..n+1 x frets -2..maxfret+2 x %d maxfret values for get_Note; all instrument-name prefixes (mixed case) x "
             "string counts %r x course counts %r for get_tunings, x description prefixes for get_tuning; %d seeded note sets "
             "(1..n+1 notes, 3 input forms, max_distance 0..30) per tuning against the brute-force fingering specification; "
-            "51 chord shorthands x 12 roots on %s guitar-family tunings plus seeded limit variations; tablature: notes 0..127 x "
+            "%d chord shorthands x 12 roots on %s guitar-family tunings plus seeded limit variations; tablature: notes 0..127 x "
             "%d widths x %d plain tunings for from_Note, %d note sets, %d bars and %d tracks per plain tuning, %d compositions "
             "(1-3 tracks, widths 20..300), each rendered and read back by an independent tab reader; tier %s, seed %d"
-            % (len(tunings), len(coursed), len(mfs), 5 if quick else 8, nss, ncs, 40 if quick else 700,
+            % (len(tunings), len(coursed), len(mfs), 5 if quick else 8, nss, ncs, 40 if quick else 700, len(shorthands),
                "rotating over the %d" % len(fam_plain) if quick else "each of the %d" % len(fam_plain),
                len(widths), len(plain), 25 if quick else 500, 30 if quick else 700, 12 if quick else 200,
                200 if quick else 4000, tier, seed))
